@@ -172,11 +172,11 @@ MUTATIONS = [
 """, expect={}),
     dict(id="q-bimap-add-order", quiet=True, file=ALGO, old="        self._lhs_map[lhs] = rhs\n        self._rhs_map[rhs] = lhs\n", new="        self._rhs_map[rhs] = lhs\n        self._lhs_map[lhs] = rhs\n", expect={}),
     # ---------------------------------------------------------------- R7d
-    dict(id="c08-smooth-subset", file="cirkit/symbolic/circuit.py", old="            self.layer_scope(sum_sl) == self.layer_scope(in_sl)\n", new="            self.layer_scope(sum_sl) >= self.layer_scope(in_sl)\n", expect={"C08": ["R7d:cirkit.symbolic.circuit.Circuit.is_smooth:definition"]}),
-    dict(id="c08-smooth-any", file="cirkit/symbolic/circuit.py", old="        return all(\n            self.layer_scope(sum_sl) == self.layer_scope(in_sl)\n", new="        return any(\n            self.layer_scope(sum_sl) == self.layer_scope(in_sl)\n", expect={"C08": ["R7d:cirkit.symbolic.circuit.Circuit.is_smooth:definition"]}),
-    dict(id="c08-decomposable-not-all", file="cirkit/symbolic/circuit.py", old="        return not any(\n            self.layer_scope(in_sl1) & self.layer_scope(in_sl2)\n", new="        return not all(\n            self.layer_scope(in_sl1) & self.layer_scope(in_sl2)\n", expect={"C08": ["R7d:cirkit.symbolic.circuit.Circuit.is_decomposable:definition"]}),
-    dict(id="c08-decomposable-sum-layers", file="cirkit/symbolic/circuit.py", old="            for prod_sl in self.product_layers\n            for in_sl1, in_sl2", new="            for prod_sl in self.sum_layers\n            for in_sl1, in_sl2", expect={"C08": ["R7d:cirkit.symbolic.circuit.Circuit.is_decomposable:definition"]}),
-    dict(id="c08-structured-any", file="cirkit/symbolic/circuit.py", old="        return all(len(fs) == 1 for _, fs in scope_factorizations.items())", new="        return any(len(fs) == 1 for _, fs in scope_factorizations.items())", expect={"C08": ["R7d:cirkit.symbolic.circuit.Circuit.is_structured_decomposable:one-factorization-per-scope"]}),
+    dict(id="c08-smooth-subset", file="cirkit/symbolic/circuit.py", old="            self.layer_scope(sum_sl) == self.layer_scope(in_sl)\n", new="            self.layer_scope(sum_sl) >= self.layer_scope(in_sl)\n", expect={"C08": ["R7d:cirkit.symbolic.circuit.Circuit.is_smooth:definition"], "C09": ["R7d:cirkit.symbolic.circuit.Circuit.is_smooth:definition"]}),
+    dict(id="c08-smooth-any", file="cirkit/symbolic/circuit.py", old="        return all(\n            self.layer_scope(sum_sl) == self.layer_scope(in_sl)\n", new="        return any(\n            self.layer_scope(sum_sl) == self.layer_scope(in_sl)\n", expect={"C08": ["R7d:cirkit.symbolic.circuit.Circuit.is_smooth:definition"], "C09": ["R7d:cirkit.symbolic.circuit.Circuit.is_smooth:definition"]}),
+    dict(id="c08-decomposable-not-all", file="cirkit/symbolic/circuit.py", old="        return not any(\n            self.layer_scope(in_sl1) & self.layer_scope(in_sl2)\n", new="        return not all(\n            self.layer_scope(in_sl1) & self.layer_scope(in_sl2)\n", expect={"C08": ["R7d:cirkit.symbolic.circuit.Circuit.is_decomposable:definition"], "C09": ["R7d:cirkit.symbolic.circuit.Circuit.is_decomposable:definition"]}),
+    dict(id="c08-decomposable-sum-layers", file="cirkit/symbolic/circuit.py", old="            for prod_sl in self.product_layers\n            for in_sl1, in_sl2", new="            for prod_sl in self.sum_layers\n            for in_sl1, in_sl2", expect={"C08": ["R7d:cirkit.symbolic.circuit.Circuit.is_decomposable:definition"], "C09": ["R7d:cirkit.symbolic.circuit.Circuit.is_decomposable:definition"]}),
+    dict(id="c08-structured-any", file="cirkit/symbolic/circuit.py", old="        return all(len(fs) == 1 for _, fs in scope_factorizations.items())", new="        return any(len(fs) == 1 for _, fs in scope_factorizations.items())", expect={"C08": ["R7d:cirkit.symbolic.circuit.Circuit.is_structured_decomposable:one-factorization-per-scope"], "C09": ["R7d:cirkit.symbolic.circuit.Circuit.is_structured_decomposable:one-factorization-per-scope"]}),
     dict(id="q-smooth-not-any", quiet=True, file="cirkit/symbolic/circuit.py", old="        return all(\n            self.layer_scope(sum_sl) == self.layer_scope(in_sl)\n", new="        return not any(\n            self.layer_scope(sum_sl) != self.layer_scope(in_sl)\n", expect={}),
     dict(id="q-decomposable-all-not", quiet=True, file="cirkit/symbolic/circuit.py", old="        return not any(\n            self.layer_scope(in_sl1) & self.layer_scope(in_sl2)\n", new="        return all(\n            not (self.layer_scope(in_sl1) & self.layer_scope(in_sl2))\n", expect={}),
     dict(id="q-structured-values", quiet=True, file="cirkit/symbolic/circuit.py", old="        return all(len(fs) == 1 for _, fs in scope_factorizations.items())", new="        return not any(len(fs) > 1 for fs in scope_factorizations.values())", expect={}),
@@ -190,4 +190,66 @@ MUTATIONS = [
     dict(id="c12-softmax-name-builds-sigmoid", file="cirkit/templates/utils.py", old="            return functools.partial(SoftmaxParameter, **kwargs)\n", new="            return functools.partial(SigmoidParameter)\n", expect={"C12": ["N1:cirkit.templates.utils.name_to_parameter_activation:case:softmax"]}),
     dict(id="c20-categorical-name-builds-binomial", file="cirkit/templates/utils.py", old="            return functools.partial(CategoricalLayer, **kwargs)\n", new="            return functools.partial(BinomialLayer, **kwargs)\n", expect={"C20": ["N1:cirkit.templates.utils.name_to_input_layer_factory:case:categorical"]}),
     dict(id="c12-softmax-dim-unshifted", file=TNODES, old="        return torch.softmax(x, dim=self.dim + 1)\n", new="        return torch.softmax(x, dim=self.dim)\n", expect={"C12": ["R5a:"], "C14": ["R5a:"]}),
+]
+
+# ---------------------------------------------------------------- round 3: shape interpreter (R4), R10, R11, matchers, R7i/R7p, R3g
+TINNER = "cirkit/backend/torch/layers/inner.py"
+TINPUT = "cirkit/backend/torch/layers/input.py"
+TOPT = "cirkit/backend/torch/layers/optimized.py"
+SEMI = "cirkit/backend/torch/semiring.py"
+QUER = "cirkit/backend/torch/queries.py"
+GMOD = "cirkit/backend/torch/graph/modules.py"
+FOLD = "cirkit/backend/torch/graph/folding.py"
+OLAY = "cirkit/backend/torch/optimization/layers.py"
+CIRC = "cirkit/symbolic/circuit.py"
+
+MUTATIONS += [
+    # R4b: layer forward contracts
+    dict(id="r4b-sum-permute", file=TINNER, old="        x = x.permute(0, 2, 1, 3).flatten(start_dim=2)\n        weight = self.weight()\n        return self.semiring.einsum(\n            \"fbi,foi->fbo\"", new="        x = x.permute(2, 0, 1, 3).flatten(start_dim=2)\n        weight = self.weight()\n        return self.semiring.einsum(\n            \"fbi,foi->fbo\"", expect={"C01": ["R4b:cirkit.backend.torch.layers.inner.TorchSumLayer:forward"]}),
+    dict(id="r4b-sum-einsum-letters", file=TINNER, old="            \"fbi,foi->fbo\", inputs=(x,), operands=(weight,), dim=-1, keepdim=True\n        )  # shape (F, B, K_o).\n\n    def sample", new="            \"fbi,fio->fbo\", inputs=(x,), operands=(weight,), dim=-1, keepdim=True\n        )  # shape (F, B, K_o).\n\n    def sample", expect={"C01": ["R4b:cirkit.backend.torch.layers.inner.TorchSumLayer:forward"]}),
+    dict(id="r4b-gaussian-unsqueeze", file=TINPUT, old="        mean = self.mean().unsqueeze(dim=1)  # (F, 1, K)", new="        mean = self.mean().unsqueeze(dim=2)  # (F, 1, K)", expect={"C01": ["R4b:cirkit.backend.torch.layers.input.TorchGaussianLayer:"]}, allow_others=True),
+    dict(id="r4b-constant-expand", file=TINPUT, old="        value = value.unsqueeze(dim=1).expand(value.shape[0], batch_size, value.shape[1])", new="        value = value.unsqueeze(dim=0).expand(value.shape[0], batch_size, value.shape[1])", expect={"C01": ["R4b:cirkit.backend.torch.layers.input.TorchConstantValueLayer:forward"]}),
+    dict(id="r4b-tucker-view", file=TOPT, old="            -1,\n            self.num_output_units,\n            *(self.num_input_units for _ in range(self.arity)),", new="            -1,\n            self.num_input_units,\n            *(self.num_input_units for _ in range(self.arity)),", expect={"C01": ["R4b:cirkit.backend.torch.layers.optimized.TorchTuckerLayer:forward"]}),
+    dict(id="r4b-tensordot-permute", file=TOPT, old="        x = x.permute(0, 1, 3, 2)", new="        x = x.permute(0, 1, 2, 3)", expect={"C01": ["R4b:cirkit.backend.torch.layers.optimized.TorchTensorDotLayer:forward"]}),
+    # R4c / R4q: marginal queries
+    dict(id="r4c-cat-logpart-axis", file=TINPUT, old="        return torch.logsumexp(logits, dim=2).unsqueeze(dim=1)", new="        return torch.logsumexp(logits, dim=1).unsqueeze(dim=1)", expect={"C11": ["R4c:cirkit.backend.torch.layers.input.TorchCategoricalLayer:"]}, allow_others=True),
+    dict(id="r4q-mask-permute", file=QUER, old="        integration_mask = integration_mask.permute([1, 0, 2])", new="        integration_mask = integration_mask.permute([0, 1, 2])", expect={"C11": ["R4q:cirkit.backend.torch.queries.IntegrateQuery._layer_fn"]}),
+    # R4s / R4q: sampling
+    dict(id="r4s-kron-sample-axes", file=TINNER, old="            y0 = y0.unsqueeze(dim=2)  # (F, K, 1, num_samples, D)", new="            y0 = y0.unsqueeze(dim=3)  # (F, K, 1, num_samples, D)", expect={"C15": ["R4s:cirkit.backend.torch.layers.inner.TorchKroneckerLayer:sample"]}),
+    dict(id="r4s-cat-sample-permute", file=TINPUT, old="        dist = distributions.Categorical(logits=logits)\n        # samples: (N, F, K)\n        samples = dist.sample((num_samples,))\n        samples = samples.permute(1, 2, 0)", new="        dist = distributions.Categorical(logits=logits)\n        # samples: (N, F, K)\n        samples = dist.sample((num_samples,))\n        samples = samples.permute(2, 1, 0)", expect={"C15": ["R4s:cirkit.backend.torch.layers.input.TorchCategoricalLayer:sample"]}),
+    dict(id="r4q-pad-zeros", file=QUER, old="            (*samples.shape, len(self._circuit.scope)),", new="            (len(self._circuit.scope), *samples.shape),", expect={"C15": ["R4q:cirkit.backend.torch.queries.SamplingQuery._pad_samples:pad"]}),
+    # R4a: parameter operators
+    dict(id="r4a-outer-unsqueeze", file=TNODES, old="        x2 = x2.unsqueeze(self.dim + 1)  # (F, K1, K2, ..., 1, Ki2, ...., Kn)", new="        x2 = x2.unsqueeze(self.dim + 2)  # (F, K1, K2, ..., 1, Ki2, ...., Kn)", expect={"C14": ["R4a:cirkit.backend.torch.parameters.nodes.TorchOuterProductParameter:forward"]}),
+    dict(id="r4a-mixing-permute", file=TNODES, old="        return diag_weights.permute(0, 2, 1, 3).flatten(start_dim=2)", new="        return diag_weights.permute(0, 2, 1, 3).flatten(start_dim=1)", expect={"C14": ["R4a:cirkit.backend.torch.parameters.nodes.TorchMixingWeightParameter:forward"]}, allow_others=True),
+    dict(id="r4a-gauss-mean-view", file=TNODES, old="        return mean.view(-1, *self.shape)  # (F, K1 * K2, C)", new="        return mean  # (F, K1 * K2, C)", expect={"C14": ["R4a:cirkit.backend.torch.parameters.nodes.TorchGaussianProductMean:forward"]}),
+    # R4p / R4r
+    dict(id="r4p-reduce-axis-dropped", file=RPAR, old="    return TorchReduceLSEParameter(in_shape, dim=p.axis)", new="    return TorchReduceLSEParameter(in_shape, dim=p.axis - 1)", expect={"C14": ["R4p:cirkit.backend.torch.rules.parameters.compile_reduce_lse_parameter"]}, allow_others=True),
+    dict(id="r4r-poly-degree", file=OPS, old="        degree=sl1.degree + sl2.degree,", new="        degree=sl1.degree + sl2.degree + 1,", expect={"C04": ["R4r:cirkit.symbolic.operators.multiply_polynomial_layers"]}),
+    dict(id="r4r-mult-units", file=OPS, old="    sl = CategoricalLayer(\n        sl1.scope,\n        sl1.num_output_units * sl2.num_output_units,\n        num_categories=sl1.num_categories,\n        logits=sl_logits,", new="    sl = CategoricalLayer(\n        sl1.scope,\n        sl1.num_output_units * sl1.num_output_units,\n        num_categories=sl1.num_categories,\n        logits=sl_logits,", expect={"C04": ["R4r:cirkit.symbolic.operators.multiply_categorical_layers"]}),
+    dict(id="r4r-outer-axis", file=OPS, old="        OuterProductParameter(sl1.weight.shape, sl2.weight.shape, axis=0),", new="        OuterProductParameter(sl1.weight.shape, sl2.weight.shape, axis=1),", expect={"C04": ["R4r:cirkit.symbolic.operators.multiply_embedding_layers"]}, allow_others=True),
+    # R11
+        dict(id="r11-lse-add-family", file=SEMI, old="class LSESumSemiring(SemiringImpl):", new="class LSESumSemiring(SemiringImpl):\n    @classmethod\n    def _unused(cls) -> None:\n        return None\n", expect={}, quiet=True),
+    dict(id="r11-morphism-exp", file=SEMI, old="@SumProductSemiring.register_map_from(LSESumSemiring)\ndef _(x: Tensor) -> Tensor:\n    return torch.exp(x)", new="@SumProductSemiring.register_map_from(LSESumSemiring)\ndef _(x: Tensor) -> Tensor:\n    return torch.log(x)", expect={"C01": ["R11b:cirkit.backend.torch.semiring:LSESumSemiring->SumProductSemiring"]}),
+    # R10
+    dict(id="r10-modulelist", file=GMOD, old="        modules: list[TorchModuleT] = nn.ModuleList(modules)  # type: ignore", new="        modules: list[TorchModuleT] = list(modules)  # type: ignore", expect={"C19": ["R10d:cirkit.backend.torch.graph.modules.TorchDiAcyclicGraph:modules"]}),
+    dict(id="r10-pointer-hidden", file=TNODES, old="        super().__init__(num_folds=num_folds)\n        self._parameter = parameter\n        self._fold_idx: Tensor", new="        super().__init__(num_folds=num_folds)\n        self._parameter = (parameter,)\n        self._fold_idx: Tensor", expect={"C19": ["R10a:cirkit.backend.torch.parameters.nodes.TorchPointerParameter:ctor:parameter"]}, allow_others=True),
+    dict(id="r10-ptensor-plain", file=TNODES, old="            self._ptensor = nn.Parameter(\n", new="            self._ptensor = torch.as_tensor(\n", expect={"C19": ["R10c:cirkit.backend.torch.parameters.nodes.TorchTensorParameter:store"]}, allow_others=True),
+    # R8 matchers / R3g / R1d sweep
+    dict(id="r8-matcher-fanin", file=COMP, old="        in_nodes = incomings_fn(layer)\n        if len(in_nodes) > 1 and lid != num_entries - 1:\n            return None", new="        in_nodes = incomings_fn(layer)\n        if len(in_nodes) > 2 and lid != num_entries - 1:\n            return None", expect={"C02": ["R8:cirkit.backend.torch.compiler._match_layer_pattern:fan-in"], "C01": ["R8:cirkit.backend.torch.compiler._match_layer_pattern:fan-in"]}),
+    dict(id="r3g-stacked-range", file=FOLD, old="    if [i for idx in cum_fold_idx for i in idx] == list(range(fold_size)):", new="    if [i for idx in cum_fold_idx for i in idx] == list(range(len(cum_fold_idx) * len(cum_fold_idx[0]))):", expect={"C02": ["R3g:cirkit.backend.torch.graph.folding.build_address_book_stacked_entry"]}),
+    dict(id="r1d-candecomp-semiring", file=OLAY, old="        weight=dense.weight,\n        semiring=compiler.semiring,\n    )\n    return (cpt,)", new="        weight=dense.weight,\n    )\n    return (cpt,)", expect={"C02": ["R1d:cirkit.backend.torch.optimization.layers.apply_candecomp"], "C01": ["R1d:cirkit.backend.torch.optimization.layers.apply_candecomp"]}),
+    # R7i / R7p / R7d
+    dict(id="r7i-evidence-reversed", file=FUN, old="        in_blocks[evi_block] = [layers_to_block[isl] for isl in sc.layer_inputs(sl)]", new="        in_blocks[evi_block] = list(reversed([layers_to_block[isl] for isl in sc.layer_inputs(sl)]))", expect={"C06": ["R7i:cirkit.symbolic.functional.evidence"]}, allow_others=True),
+    dict(id="r7p-rule-call-swapped", file=FUN, old="        prod_block = func(l1, l2)", new="        prod_block = func(l2, l1)", expect={"C04": ["R7p:cirkit.symbolic.functional.multiply:rule-call"]}, allow_others=True),
+    # quiet variants (behaviour preserving): every check must stay silent
+    dict(id="q-sum-flatten-explicit", file=TINNER, old="        x = x.permute(0, 2, 1, 3).flatten(start_dim=2)\n        weight = self.weight()\n        return self.semiring.einsum(\n            \"fbi,foi->fbo\"", new="        x = x.permute(0, 2, 1, 3).flatten(start_dim=2, end_dim=3)\n        weight = self.weight()\n        return self.semiring.einsum(\n            \"fbi,foi->fbo\"", expect={}, quiet=True),
+    dict(id="q-sum-einsum-renamed", file=TINNER, old="            \"fbi,foi->fbo\", inputs=(x,), operands=(weight,), dim=-1, keepdim=True\n        )  # shape (F, B, K_o).\n\n    def sample", new="            \"abc,adc->abd\", inputs=(x,), operands=(weight,), dim=-1, keepdim=True\n        )  # shape (F, B, K_o).\n\n    def sample", expect={}, quiet=True),
+    dict(id="q-cat-logpart-keepdim", file=TINPUT, old="        return torch.logsumexp(logits, dim=2).unsqueeze(dim=1)", new="        return torch.logsumexp(logits, dim=-1).unsqueeze(dim=1)", expect={}, quiet=True),
+    dict(id="q-gaussian-unsqueeze-none", file=TINPUT, old="        mean = self.mean().unsqueeze(dim=1)  # (F, 1, K)", new="        mean = self.mean()[:, None, :]  # (F, 1, K)", expect={}, quiet=True),
+    dict(id="q-lse-shift-hoisted", file=SEMI, old="        exp_xs = [torch.exp(xi - max_xi) for xi, max_xi in zip(xs, max_xs)]\n\n        # NOTE: exp_x is not tuple, but list still can be unpacked with *.\n        func_exp_xs = func(*cast(tuple[Tensor, ...], exp_xs))\n\n        reduced_max_xs = functools.reduce(torch.add, max_xs)  # Do n-1 add instead of n.\n        if not keepdim:\n            reduced_max_xs = reduced_max_xs.squeeze(dim)  # To match shape of func_exp_x.\n        return torch.log(func_exp_xs) + reduced_max_xs", new="        shifted = [xi - max_xi for xi, max_xi in zip(xs, max_xs)]\n        exp_xs = [torch.exp(s) for s in shifted]\n\n        # NOTE: exp_x is not tuple, but list still can be unpacked with *.\n        func_exp_xs = func(*cast(tuple[Tensor, ...], exp_xs))\n\n        reduced_max_xs = functools.reduce(torch.add, max_xs)  # Do n-1 add instead of n.\n        if not keepdim:\n            reduced_max_xs = reduced_max_xs.squeeze(dim)  # To match shape of func_exp_x.\n        return torch.log(func_exp_xs) + reduced_max_xs", expect={}, quiet=True),
+    dict(id="q-matcher-guard-split", file=COMP, old="        out_nodes = outcomings_fn(layer)\n        if len(out_nodes) > 1 and lid != 0:\n            return None", new="        out_nodes = outcomings_fn(layer)\n        if lid > 0:\n            if len(out_nodes) >= 2:\n                return None", expect={}, quiet=True),
+    dict(id="q-compat-all-form", file=CIRC, old="        fs1, fs2 = sfs1[scope], sfs2[scope]\n        if len(fs1) != 1 or len(fs2) != 1:\n            return False\n        if fs1 != fs2:\n            return False\n    return True", new="        fs1, fs2 = sfs1[scope], sfs2[scope]\n        if not (len(fs1) == 1 and len(fs2) == 1 and fs1 == fs2):\n            return False\n    return True", expect={}, quiet=True),
+    dict(id="q-evidence-rewire-loop-var", file=FUN, old="        in_blocks[evi_block] = [layers_to_block[isl] for isl in sc.layer_inputs(sl)]", new="        in_blocks[evi_block] = list(layers_to_block[x] for x in sc.layer_inputs(sl))", expect={}, quiet=True),
+    dict(id="q-pointer-attr-renamed", file=TNODES, old="        super().__init__(num_folds=num_folds)\n        self._parameter = parameter\n        self._fold_idx: Tensor", new="        super().__init__(num_folds=num_folds)\n        p = parameter\n        self._parameter = parameter\n        del p\n        self._fold_idx: Tensor", expect={}, quiet=True),
+    dict(id="q-kron-sample-negative-axes", file=TINNER, old="            y0 = y0.unsqueeze(dim=2)  # (F, K, 1, num_samples, D)", new="            y0 = y0.unsqueeze(dim=-3)  # (F, K, 1, num_samples, D)", expect={}, quiet=True),
 ]
